@@ -11,7 +11,7 @@ namespace Queue
 /-- one harness operation, as parsed -/
 inductive HOp where
   | emit (h : Nat) (m : String) (len : Nat)
-  | clone (h : Nat) | drop (h : Nat) | flush (h : Nat) | stats (h : Nat)
+  | clone (h : Nat) | drop (h : Nat) | flush (h : Nat) | stats (h : Nat) | sinkStats (h : Nat)
   | fin (o : Outcome) (kind : Nat)
   deriving Repr
 
@@ -25,6 +25,7 @@ inductive HEv where
 inductive HRes where
   | ok (n : Option Nat) | err (k : Nat) | idle | nohandle | blocked | panic | skipped
   | stats (sub drn q pan : Nat)
+  | sinkStats (a b c d : Nat)
   deriving Repr, DecidableEq
 
 structure HObs where
@@ -117,6 +118,11 @@ def ckOp (cap : Option Nat) (hasHandler : Bool) (s : CkSt) (op : HOp) (o : HObs)
     if h ∉ s.live then pure s else
     ckEvents hasHandler none { s with live := s.live.erase h } o.evs false
   | .flush _ => ckEvents hasHandler none s o.evs false
+  | .sinkStats h =>
+    if h ∉ s.live then pure s else
+    -- the gated wrapped sink reports fixed figures: the queuing sink must pass them through unchanged
+    if o.res ≠ .sinkStats 70 3 50 2 then viol "C14" "stats() read through the queuing sink differ from the wrapped sink's"
+    else ckEvents hasHandler none s o.evs false
   | .stats h =>
     if h ∉ s.live then pure s else
     match o.res with
